@@ -90,12 +90,12 @@ def rec_value(rng, fields):
     return "(0" + "".join(" " + G.gen_value(rng, f["ty"], None, 0.6) for f in fields) + ")"
 
 
-def gen_cases(seed, tier):
+def gen_cases(seed, tier, p_illegal=0.1, nh=None):
     rng = C.rng_for(seed, "C03")
-    nh = 500 if tier == "quick" else 12000
+    nh = nh or (500 if tier == "quick" else 12000)
     out = []
     for h in range(nh):
-        illegal = rng.random() < 0.1
+        illegal = rng.random() < p_illegal
         H, versions = gen_history(rng, illegal)
         n = len(versions) - 1
         pairs = [(w, r) for w in range(n + 1) for r in range(n + 1)]
@@ -236,7 +236,7 @@ def check(rep, tier, seed):
     rng = C.rng_for(seed, "C03s")
     sc = []
     per = 8 if tier == "quick" else 200
-    for fam, nv in (("H1v", 5), ("H2v", 5), ("HEv", 4)):   # H2: added fields declared in the middle; HEv: steps on an enum variant
+    for fam, nv in (("H1v", 5), ("H2v", 5), ("HEv", 4), ("H3v", 3)):   # H2: added fields declared in the middle; HEv: steps on an enum variant
         ids = [K.index_of(env, f"{fam}{i}") for i in range(nv)]
         for w in range(nv):
             for r in range(nv):
